@@ -63,7 +63,7 @@ def execCmd (E : Ed σ) (keep : Bool) : Cmd → σ × Ctx → σ × Ctx
   | .cut name k, st =>
     let r := E.readField k st.1
     (r.1, st.2.pushField name r.2)
-  | .rep body n, st => iter (fun s => afterCmd E keep (execBody E keep body s)) n st
+  | .rep body n, st => iter (fun s => execSeq E keep body s) n st
   | .glob pat pol thn hasElse els, st =>
     let lines := E.globalLines pat pol st.1
     if lines.isEmpty then
@@ -73,11 +73,8 @@ def execCmd (E : Ed σ) (keep : Bool) : Cmd → σ × Ctx → σ × Ctx
         match E.gotoLine ln s.1 with
         | none => s
         | some e => execSeq E keep thn (e, s.2)) st
-/-- The body of a `Repeat`: commands run back to back (no `set_normal_mode` in between). -/
-def execBody (E : Ed σ) (keep : Bool) : List Cmd → σ × Ctx → σ × Ctx
-  | [], st => st
-  | c :: cs, st => execBody E keep cs (execCmd E keep c st)
-/-- A command list at top level or in a `-g` scope: `set_normal_mode` after every command. -/
+/-- A command list at top level, in a `-g` scope or in a `Repeat` body: `set_normal_mode` after
+every command (unless `--keep-mode`). -/
 def execSeq (E : Ed σ) (keep : Bool) : List Cmd → σ × Ctx → σ × Ctx
   | [], st => st
   | c :: cs, st => execSeq E keep cs (afterCmd E keep (execCmd E keep c st))
